@@ -1094,6 +1094,9 @@ def _requeue(cases, tid, extra, results, pending):
     if cases[tid]['kind'] == 'subs':
         results[tid] = _abandoned(cases[tid], extra[tid])
         results[tid]['abandoned'] = False
+    elif len(extra[tid]) >= 3:
+        # three calls of this case did not return: the verdict stands, the rest of the case is not waited for
+        results[tid] = _abandoned(cases[tid], extra[tid])
     else:
         pending.insert(0, tid)
 
